@@ -45,6 +45,8 @@ ALPHABET = [
     ["group_by", [Cn("g")]],
     ["summarize", [["n", ["count_star"]]]],
     ["summarize", [["g", ["max", src("T", "x")]], ["n", ["count_star"]]]],  # overwrites the grouping column
+    ["summarize", [["n", ["count_star"]], ["g", ["max", src("T", "x")]]]],  # ... with the overwriting aggregate last
+    ["group_by", [Cn("k"), Cn("g")]],
     ["join", {"src": "R"}, "left", [["eq", src("T", "k"), src("R", "k")]]],
     ["join", {"src": "R"}, "inner", [["lt", src("T", "k"), src("R", "k")]], {"suffix": "_s"}],
     ["join", {"src": "R", "hist": [["select", [src("R", "w"), src("R", "k")]]]}, "inner", [["eq", src("T", "k"), ["col", "right", "k"]]]],
